@@ -466,7 +466,118 @@ def execute_batch(case):
     return agg
 
 
+def int_matrix(fam, n, t):
+    """integer-typed members of a family (an integer matrix is a real matrix): small integers, diagonally dominant"""
+    R = np.rint(3 * tab(n * n, 11, t)).astype(np.int64).reshape(n, n)
+    if fam.startswith('diag'):
+        d = np.array([2, -3, 4, 5, -2, 3, 7, -4][:n], dtype=np.int64)
+        return np.diag(d)
+    if fam in ('spd_r',):
+        return R @ R.T + (4 * n) * np.eye(n, dtype=np.int64)
+    if fam in ('symi_r',):
+        return R + R.T + np.diag(np.where(np.arange(n) % 2 == 0, 7, -7)).astype(np.int64)
+    return R + (4 * n) * np.eye(n, dtype=np.int64)
+
+
+def exec_isolation(case):
+    """Two live solver objects of the same configuration on two different matrices, used interleaved (each must answer
+    for its own matrix), and integer-typed matrices.  sub-kind 'iso' | 'int'."""
+    t = case['table']
+    n = case['n']
+    name = case['solver']
+    V, nsolve = [], 0
+
+    def mk(A_store, Aref):
+        if name.startswith('auto'):
+            import pymoto.solvers as ps
+            return ps.auto_determine_solver(A_store)
+        return make_solver(case)
+
+    def judge(s, Aref, b, tr, what, sig):
+        nonlocal nsolve
+        nsolve += 1
+        try:
+            x = np.asarray(s.solve(b.copy(), trans=tr))
+        except Exception as e:  # noqa
+            V.append({'check': 'raised', 'signature': dict(sig, check='raised', exc=type(e).__name__),
+                      'detail': {'what': what, 'trans': tr, 'error': str(e)[:300], 'matrix': Aref}})
+            return
+        res = rel_residual(Aref, x, b, tr) if x.shape == b.shape else float('inf')
+        if not res <= 1e-9:
+            V.append({'check': 'residual', 'signature': dict(sig, check='residual'),
+                      'detail': {'what': what, 'trans': tr, 'residual': res, 'matrix': Aref, 'rhs': b, 'x': x}})
+
+    if case['sub'] == 'int':
+        A = int_matrix(case['fam'], n, t)
+        if not props(A.astype(float))['cond'] <= 1e4:
+            return {'skipped': 'illconditioned'}
+        Ain = store(A, case['storage'])
+        s = mk(Ain, A)
+        try:
+            s.update(Ain)
+        except Exception as e:  # noqa
+            return {'states': 1, 'transitions': 1, 'violations': [{
+                'check': 'raised', 'signature': {'check': 'raised', 'solver': solver_label(s), 'matrix': 'integer_dtype',
+                                                 'stage': 'update', 'exc': type(e).__name__},
+                'detail': {'error': str(e)[:300], 'matrix': A}}], 'key': f"int|{case}"}
+        for tr in 'NTH':
+            for rn in ('vec', 'blk3', 'cvec'):
+                if rn == 'cvec' and case['storage'] != 'dense':
+                    continue
+                judge(s, A.astype(float), make_rhs(rn, n, t), tr, 'integer matrix',
+                      {'solver': solver_label(s), 'matrix': 'integer_dtype'})
+    else:
+        A1 = gen_matrix(case['fam'], n, case['pat'], t)
+        A2 = gen_matrix(case['fam2'], n, case['pat'], (t + 1) % NT)
+        for A_, f_ in ((A1, case['fam']), (A2, case['fam2'])):
+            why = admissible(dict(case, fam=f_), A_)
+            if why:
+                return {'skipped': why}
+        S1, S2 = store(A1, case['storage']), store(A2, case['storage'])
+        s1, s2 = mk(S1, A1), mk(S2, A2)
+        s1.update(S1)
+        s2.update(S2)
+        sig = {'solver': solver_label(s1), 'cause': 'two_live_solver_objects'}
+        for tr in 'NTH':
+            for rn in ('vec', 'blk3'):
+                b = make_rhs(rn, n, t)
+                judge(s1, A1, b, tr, 'first object after the second was updated', sig)
+                judge(s2, A2, b, tr, 'second object', sig)
+        # update the first again with a third matrix, then ask the second
+        A3 = gen_matrix(case['fam'], n, case['pat'], (t + 2) % NT)
+        if not admissible(case, A3):
+            s1.update(store(A3, case['storage']))
+            judge(s2, A2, make_rhs('vec', n, t), 'N', 'second object after the first was updated again', sig)
+            judge(s1, A3, make_rhs('vec', n, t), 'T', 'first object on its third matrix', sig)
+    uniq = []
+    for v in V:
+        if not any(u['signature'] == v['signature'] for u in uniq):
+            uniq.append(v)
+    return {'states': 1, 'transitions': nsolve, 'checks': nsolve, 'nontrivial': True,
+            'key': f"{case['sub']}|{name}|{case['fam']}|{case.get('fam2')}|{case['storage']}|{n}",
+            'outcome': f"{case['sub']}:{'viol' if V else 'ok'}", 'violations': uniq}
+
+
+def isolation_cases(t):
+    for name, (fams, storages) in SOLVERS.items():
+        gf = [f for f in fams if f not in FE_FAMS]
+        for storage in storages:
+            for f1 in gf:
+                for f2 in gf:
+                    if f1.endswith('_c') != f2.endswith('_c'):
+                        continue
+                    yield {'kind': 'iso', 'sub': 'iso', 'solver': name, 'fam': f1, 'fam2': f2, 'n': 3,
+                           'pat': npatterns(f1, 3) - 1, 'storage': storage, 'table': t}
+            for f1 in gf:
+                if f1 in ('diag_r', 'gen_r', 'spd_r', 'symi_r'):
+                    for n in (2, 3):
+                        yield {'kind': 'iso', 'sub': 'int', 'solver': name, 'fam': f1, 'n': n, 'storage': storage,
+                               'table': t}
+
+
 def execute(case):
+    if case.get('kind') == 'iso':
+        return exec_isolation(case)
     if 'pats' in case:
         return execute_batch(case)
     import warnings
@@ -784,6 +895,8 @@ def generate(tier, seed):
     t = seed % NT
     yield {'__level__': 'direct/n<=8/patterns<=3'}
     yield from direct_cases(t, SIZES, 3)
+    yield {'__level__': 'two-live-objects-and-integer-matrices'}
+    yield from isolation_cases(t)
     if tier == 'quick':
         yield {'__level__': 'cg/generated'}
         yield from cg_gen_cases(t, SIZES, 3, [1e-7], ['dense', 'csc', 'csr'], X0_RHS_Q)
